@@ -164,6 +164,15 @@ check("C05", "model_checking",
       "Trusted: the reference selection rule (display inheritance as documented) and the tracer bookkeeping in checks/c05.py; incl_src off. Two genuine defects (file-level display not inherited; hide_undoc hides documented abstract interfaces) are listed known findings matched by feature.",
       "full product of display configurations x deviation-bounded metadata overrides with a presence/absence tracer oracle", "DESIGN.md 5/C05")
 
+check("C11", "model_checking",
+      "A catalogue of ~60 reference spellings (each target x no qualifier / every documented kind synonym for either part / child part / upper case / absent / hidden target, "
+      "code span and fenced block) is placed in EVERY documentation context of a project that deliberately reuses names at several levels (doc of module, type, procedure, "
+      "variable, component, program, submodule, source file; project file; static pages at depth 0-2), batched and one per paragraph. A reference resolver implementing the "
+      "documented lookup order selects the expected entity; every occurrence on every generated page is resolved from that page and must reach the expected page/anchor; absent "
+      "targets must be plain text with a warning; references that abort the run are isolated per (context, spelling).",
+      "Trusted: the expected-target table in checks/c11.py (derived from the user guide's lookup rules); expected URLs are those FORD assigns to the expected entity. Three genuine defects are listed known findings keyed by spelling/context.",
+      "exhaustive product of reference spellings x contexts x display pages against a reference resolver", "DESIGN.md 5/C11")
+
 ALL = [f"C{i:02d}" for i in range(1, 21)]
 PENDING_REASON = "check not built yet in this round (planned: see DESIGN.md section 5); will be claimed once its exhaustive check exists"
 
